@@ -42,6 +42,8 @@ class RegionSpace(Space):
         self.shape, self.alphabet, self.dtype = shape, alphabet, dtype
         self.margin, self.fill = margin, fill
         self.name = "regions_%dx%d_%dletters_%s" % (shape[0], shape[1], len(alphabet), dtype)
+        if any(x != x for x in alphabet):
+            self.name += "_nan"
         if margin:
             self.name += "_margin%d%d%d%d_fill%s" % (margin + (fill,))
         self.size = len(alphabet) ** (shape[0] * shape[1]) * 2
